@@ -43,7 +43,7 @@ CHECK = dict(
 
 
 def shards(tier, seed, scale):
-    per = 14 if tier == "quick" else 500
+    per = 14 if tier == "quick" else 350
     return common.mk_shards(16, seed, tier, per_shard=per, scale=scale)
 
 
